@@ -192,6 +192,19 @@ func (s *Svc) HoldHard(ctx context.Context, tok string, pad string) (string, err
 	return Reply(tok), nil
 }
 
+// NoCtx has no context parameter at all.
+func (s *Svc) NoCtx(tok string) (string, error) {
+	r, g := s.enter(context.Background(), "NoCtx", tok)
+	defer s.exit(nil, r)
+	if g != nil {
+		select {
+		case <-g:
+		case <-time.After(3 * time.Second):
+		}
+	}
+	return Reply(tok), nil
+}
+
 func (s *Svc) Big(ctx context.Context, tok string, n int) (string, error) {
 	r, g := s.enter(ctx, "Big", tok)
 	defer s.exit(ctx, r)
@@ -423,6 +436,8 @@ func (s *Svc) Rev(ctx context.Context, tok string, k int, which int) (string, er
 type Client struct {
 	Echo            func(ctx context.Context, tok string, pad string) (string, error)
 	EchoR           func(ctx context.Context, tok string, pad string) (string, error) `retry:"true" rpc_method:"S.Echo"`
+	NoCtx           func(tok string) (string, error)
+	NoCtxR          func(tok string) (string, error) `retry:"true" rpc_method:"S.NoCtx"`
 	HoldHard        func(ctx context.Context, tok string, pad string) (string, error)
 	Big             func(ctx context.Context, tok string, n int) (string, error)
 	BigR            func(ctx context.Context, tok string, n int) (string, error) `retry:"true" rpc_method:"S.Big"`
